@@ -300,7 +300,19 @@ func endedContexts(cfg fw.Config, rec *fw.Rec) {
 			}
 			for _, c := range cs {
 				if act == "loop" {
-					jobs = append(jobs, job{c, true, "deadline"}, job{c, true, "cancelled"}, job{c, false, "deadline"})
+					jobs = append(jobs, job{c, true, "deadline"}, job{c, true, "cancelled"})
+					// interpreted: once the action has used up the time, a guard of an error
+					// branch runs under the ended context too and is itself interrupted (or
+					// not) - only branch lists without guards have one outcome
+					guarded := false
+					for _, b := range c.branches {
+						if b.guard != "none" {
+							guarded = true
+						}
+					}
+					if !guarded {
+						jobs = append(jobs, job{c, false, "deadline"})
+					}
 				} else {
 					jobs = append(jobs, job{c, true, "cancelled"})
 				}
@@ -310,9 +322,6 @@ func endedContexts(cfg fw.Config, rec *fw.Rec) {
 	rec.SetExtra("configs_ended-contexts", len(jobs))
 	fw.Parallel(cfg.Workers, len(jobs), func(w, i int) {
 		j := jobs[i]
-		if !j.native && cfg.Pick(3, 1) > 1 && (i/3)%3 != 0 {
-			return
-		}
 		a := j.c.spec()
 		spec, err := a.Compiled(j.native, ref.NativeNilErr)
 		if err != nil {
